@@ -15,9 +15,12 @@
    hypothesis); copy / deepcopy additionally need what every Python object has: one attribute per field.
 
    Independence ("mutating a deep copy or an unpickled copy never affects the original") is a statement about
-   aliasing between Python objects; values are trees here, so it is checked on the implementation only
-   (harness/props/c14.py mutates every copy through every path and re-snapshots the original): the claim is
-   PARTIAL for that clause.  What the tree model CAN say about a copy and later operations is proved: every
+   aliasing between Python objects; the value model above is tree-valued and cannot express it.  It is proved over the
+   HEAP model Model/C14Heap.v (last part of this file: C14_deepcopy_disjoint, C14_deepcopy_independent,
+   C14_pickle_independent for every heap, depth and finite sequence of mutations through either root;
+   C14_copy_shares_refuted / C14_copy_toplevel_independent for the shallow copy), tied to the code by the aliasing stage
+   of harness/props/c14.py (sharing observed with id() and the effect of mutations, against the model).  What the tree
+   model says about a copy and later operations: every
    operation of the history alphabet (assignment / read through any path, parse into the object, copy, deepcopy,
    pickle, bytes, len, dump, ==, bool) respects [mat] (C14_step_respects_materialisation), so a copy / deep copy
    taken at any point of a history behaves under the rest of the history exactly as the original would
@@ -36,6 +39,7 @@ From BP Require Import Proofs.C14Mat Proofs.C14Eq Proofs.C14Enc Proofs.C14Obs Pr
 From BP Require Import Proofs.C01Main Proofs.C14PickleEq Proofs.C14Pickle Proofs.C14PickleUnk Proofs.C14PicklePres Proofs.C14PicklePres2.
 From BP Require Import Proofs.C14UFinal.
 From BP Require Import Proofs.C14Sim1 Proofs.C14Sim2 Proofs.C14Sim3 Proofs.C14Sim4 Proofs.C14Sim5 Proofs.C14Sim6 Proofs.C14Seq Proofs.C14Seq2.
+From BP Require Model.C14Heap Proofs.C14HeapA Proofs.C14HeapB Proofs.C14HeapC Proofs.C14HeapD Proofs.C14HeapE.
 
 (* ---- the key lemma: a stored default is invisible, field by field ---- *)
 Theorem C14_materialisation_key_lemma : forall sc, wf_schema sc = true -> forall f v v',
@@ -117,7 +121,8 @@ Theorem C14_copy_faithful : forall sc, wf_schema sc = true -> forall o,
 Proof. exact copy_faithful. Qed.
 Print Assumptions C14_copy_faithful.
 
-(* missing from the property: independence of the deep copy (aliasing; harness-only) *)
+(* missing from THIS statement: independence of the deep copy (aliasing) - proved over the heap model as
+   C14_deepcopy_disjoint / C14_deepcopy_independent at the end of this file; the name is kept *)
 Theorem C14_deepcopy_faithful_partial : forall sc, wf_schema sc = true -> forall o,
   shaped_obj sc o = true ->
   (enc_obj sc (deepcopy sc o) = enc_obj sc o /\
@@ -735,3 +740,195 @@ Proof.
   vm_compute. repeat split; reflexivity.
 Qed.
 Print Assumptions C14_pickle_map_value_flag_refuted.
+
+(* ================================================================================================== *)
+(* INDEPENDENCE: the aliasing model (Model/C14Heap.v)                                                  *)
+(* ================================================================================================== *)
+(* Python objects with identity (Message, list, dict) are cells of a heap (an address = an index, allocation appends);
+   a slot holds an immutable scalar or an address.  H.abs n h a reads the value tree back (fuel n = nesting depth; None for
+   a dangling address or a cycle), H.reach n h a lists the cells the structure occupies.  "Well-formed" in the theorems
+   below is the decidable equation  H.abs n h root = Some v  for SOME fuel n: the structure under root is finite and has
+   no dangling reference.  Nothing else is assumed about the heap: any other cells, sharing inside the structure (the same
+   child in two fields, the same message twice in a list), ill-typed cells, any schema.
+   H.h_deepcopy mirrors Message.__deepcopy__ + copy.deepcopy (a memo per field value: a message held twice by ONE list is
+   copied once, a child held by two fields twice), H.h_copy mirrors __copy__, H.h_pickle_rt = FromString(bytes(m)),
+   H.h_mut / H.h_muts are mutations THROUGH A ROOT at any depth: attribute assignment (__setattr__ with flag and sibling
+   reset), attribute read (the lazy default is created AND stored in its holder), list append / item assignment, dict
+   store / delete, and appending an object reached from the same root to one of its lists (aliasing inside one structure);
+   every navigation step is an attribute read / l[k] / d[key]. *)
+Module H := BP.Model.C14Heap.
+Module HA := BP.Proofs.C14HeapA.
+
+(* deep copy: the copy occupies only new cells, the original's cells are untouched, the two do not meet, and the copy
+   reads back as the value-level deepcopy of the original (the subject of C14_deepcopy_faithful_partial above) *)
+Theorem C14_deepcopy_disjoint : forall sc n h root v h' root',
+  H.abs n h root = Some v -> H.h_deepcopy sc n h root = Some (h', root') ->
+  H.disjointb (H.reach n h' root') (H.reach n h' root) = true /\
+  H.abs n h' root' = Some (deepcopy_pv sc v) /\
+  (forall b, (b < length h)%nat -> nth_error h' b = nth_error h b) /\
+  (forall k, H.abs k h' root = H.abs k h root) /\
+  H.reach n h' root = H.reach n h root /\
+  (forall b, In b (H.reach n h' root') -> (length h <= b)%nat) /\
+  (forall b, In b (H.reach n h' root) -> (b < length h)%nat).
+Proof. exact BP.Proofs.C14HeapD.deepcopy_disjoint. Qed.
+Print Assumptions C14_deepcopy_disjoint.
+
+(* ... and it exists whenever the original is well-formed (same fuel) *)
+Theorem C14_deepcopy_total : forall sc n h root v,
+  H.abs n h root = Some v -> exists h' root', H.h_deepcopy sc n h root = Some (h', root').
+Proof. exact BP.Proofs.C14HeapE.deepcopy_total. Qed.
+Print Assumptions C14_deepcopy_total.
+
+(* "mutating a deep copy never affects the original": EVERY finite sequence of mutations through the copy's root, at any
+   depth, leaves the value of the original what it was (at every fuel: also `None` stays `None`); and symmetrically *)
+Theorem C14_deepcopy_independent : forall sc n h root v h' root',
+  H.abs n h root = Some v -> H.h_deepcopy sc n h root = Some (h', root') ->
+  forall ms,
+  (forall k, H.abs k (H.h_muts sc h' root' ms) root = H.abs k h root) /\
+  (forall k, H.abs k (H.h_muts sc h' root ms) root' = H.abs k h' root').
+Proof. exact BP.Proofs.C14HeapD.deepcopy_independent. Qed.
+Print Assumptions C14_deepcopy_independent.
+
+(* the unpickled copy: it is the tree value-level pickle_rt returns (C14_pickle / C14_pickle_unknown_any_depth say what that
+   is), built from new cells only; disjoint from the original; independent in both directions *)
+Theorem C14_pickle_independent : forall sc n h root h' root',
+  H.h_pickle_rt sc n h root = Some (h', root') ->
+  exists o o', H.abs n h root = Some (PMsg o) /\ pickle_rt sc o = Ok o' /\
+    (exists n', forall k, (n' <= k)%nat -> H.abs k h' root' = Some (PMsg o')) /\
+    (forall b, (b < length h)%nat -> nth_error h' b = nth_error h b) /\
+    (forall k, H.abs k h' root = H.abs k h root) /\
+    (forall k b, In b (H.reach k h' root') -> (length h <= b)%nat) /\
+    (forall b, In b (H.reach n h' root) -> (b < length h)%nat) /\
+    H.disjointb (H.reach n h' root') (H.reach n h' root) = true /\
+    forall ms,
+      (forall k, H.abs k (H.h_muts sc h' root' ms) root = H.abs k h root) /\
+      (forall k, H.abs k (H.h_muts sc h' root ms) root' = H.abs k h' root').
+Proof. exact BP.Proofs.C14HeapD.pickle_independent. Qed.
+Print Assumptions C14_pickle_independent.
+
+(* the general fact behind both: a territory [own] that is closed under the heap and contains every address from L on
+   (everything allocated later); mutations through a root inside it keep it closed and change no cell outside it *)
+Theorem C14_mutations_stay_in_territory : forall (own : H.addr -> Prop) L sc ms h root,
+  HA.inv own L h -> own root ->
+  HA.inv own L (H.h_muts sc h root ms) /\ HA.pres own h (H.h_muts sc h root ms).
+Proof. exact BP.Proofs.C14HeapB.muts_ok. Qed.
+Print Assumptions C14_mutations_stay_in_territory.
+
+(* a value whose footprint F is closed and untouched reads back the same *)
+Theorem C14_frame : forall h h' F,
+  HA.closed h F -> (forall a, In a F -> nth_error h' a = nth_error h a) ->
+  forall k a, In a F -> H.abs k h' a = H.abs k h a.
+Proof. exact HA.frame_abs. Qed.
+Print Assumptions C14_frame.
+
+(* building a structure from a value tree (what parse / FromString / a constructor call does): new cells only, referring to
+   new cells only, and it reads back as the tree *)
+Theorem C14_alloc_reads_back : forall h o h' a,
+  H.alloc_tree h o = (h', a) ->
+  HA.alloc_ok h h' /\ (length h <= a)%nat /\ exists n, forall k, (n <= k)%nat -> H.abs k h' a = Some (PMsg o).
+Proof. exact BP.Proofs.C14HeapD.alloc_tree_spec. Qed.
+Print Assumptions C14_alloc_reads_back.
+
+(* the shallow copy: ONE new cell holding the same references; it reads back as the value-level copy *)
+Theorem C14_copy_heap_faithful : forall sc h root h' root',
+  H.h_copy sc h root = Some (h', root') ->
+  root' = length h /\ BP.Proofs.C14HeapC.hext h h' /\
+  forall k o, H.abs (S k) h root = Some (PMsg o) -> H.abs (S k) h' root' = Some (PMsg (copy sc o)).
+Proof. exact BP.Proofs.C14HeapD.copy_faithful_heap. Qed.
+Print Assumptions C14_copy_heap_faithful.
+
+(* what does hold for it: any sequence of TOP-LEVEL assignments  c.<field> = v  on the shallow copy leaves the original alone *)
+Theorem C14_copy_toplevel_independent : forall sc n h root v h' root',
+  H.abs n h root = Some v -> H.h_copy sc h root = Some (h', root') ->
+  forall l k, H.abs k (H.h_muts sc h' root' (BP.Proofs.C14HeapD.toplevel_sets l)) root = H.abs k h root.
+Proof. exact BP.Proofs.C14HeapD.copy_toplevel_independent. Qed.
+Print Assumptions C14_copy_toplevel_independent.
+
+(* ---- witnesses.  Holder(inner=Inner(x=1), b="", r=[Inner(x=2)], mm={"k": Inner()}) with an unknown record ---- *)
+Definition ex_hobj : obj :=
+  Obj 13 [PPlaceholder; PMsg (Obj 11 [PInt 1; PPlaceholder; PNone] true [] []); PPlaceholder; PStr [];
+          PList [PMsg (Obj 11 [PInt 2; PPlaceholder; PNone] true [] [])];
+          PDict [(PStr [x6b], PMsg (Obj 11 [PPlaceholder; PPlaceholder; PNone] false [] []))];
+          PPlaceholder; PNone] true [x98; x06; x01] [Some 3%nat].
+Definition ex_heap : H.heap := fst (H.alloc_tree [] ex_hobj).
+Definition ex_root : H.addr := snd (H.alloc_tree [] ex_hobj).
+(* through the copy: nested assignment below a lazily created child, append to the repeated field, assignment inside a
+   list element and inside a map value, a new map entry, a deleted one, a top-level assignment that resets the oneof,
+   and the same list element appended again (aliasing inside the copy) *)
+Definition ex_muts : list H.mut :=
+  [H.MSet [H.PField 1%nat; H.PField 1%nat] 0%nat (PInt 7);
+   H.MAppend [H.PField 4%nat] (PMsg (Obj 11 [PInt 3; PPlaceholder; PNone] true [] []));
+   H.MSet [H.PField 4%nat; H.PItem 0%nat] 0%nat (PInt 9);
+   H.MSet [H.PField 5%nat; H.PKey (PStr [x6b])] 0%nat (PInt 4);
+   H.MDictSet [H.PField 5%nat] (PStr [x6a]) (PMsg (Obj 11 [PInt 5; PPlaceholder; PNone] true [] []));
+   H.MDictDel [H.PField 5%nat] (PStr [x6b]);
+   H.MSet [] 2%nat (PInt 1);
+   H.MListSet [H.PField 4%nat] 1%nat (PMsg (Obj 11 [PInt 8; PPlaceholder; PNone] true [] []));
+   H.MAppendRef [H.PField 4%nat] [H.PField 4%nat; H.PItem 0%nat];
+   H.MRead [H.PField 0%nat]].
+
+Definition pv_same_opt (a b : option pv) : bool :=
+  match a, b with
+  | Some x, Some y => cv_eqb (cv_of_pv x) (cv_of_pv y)
+  | None, None => true
+  | _, _ => false
+  end.
+
+(* non-vacuity: the heap is well-formed at fuel 4 (3 is enough, 2 is not), the deep copy and the unpickled copy exist, the mutations do
+   change the structure they go through (six cells allocated, the value differs), the other one keeps its value *)
+Example C14_heap_nonvacuous :
+  H.abs 4 ex_heap ex_root = Some (PMsg ex_hobj) /\ H.abs 2 ex_heap ex_root = None /\ length ex_heap = 6%nat /\
+  match H.h_deepcopy ex_schema 4 ex_heap ex_root with
+  | Some (h', r') =>
+      H.reach 4 h' ex_root = [5; 0; 2; 1; 4; 3]%nat /\ H.reach 4 h' r' = [11; 6; 8; 7; 10; 9]%nat /\
+      pv_same_opt (H.abs 4 h' r') (Some (PMsg (deepcopy ex_schema ex_hobj))) = true /\
+      pv_same_opt (H.abs 6 (H.h_muts ex_schema h' r' ex_muts) r') (H.abs 6 h' r') = false /\
+      pv_same_opt (H.abs 6 (H.h_muts ex_schema h' r' ex_muts) ex_root) (Some (PMsg ex_hobj)) = true /\
+      pv_same_opt (H.abs 6 (H.h_muts ex_schema h' ex_root ex_muts) ex_root) (Some (PMsg ex_hobj)) = false /\
+      pv_same_opt (H.abs 6 (H.h_muts ex_schema h' ex_root ex_muts) r') (H.abs 6 h' r') = true /\
+      H.shared 6 (H.h_muts ex_schema h' r' ex_muts) ex_root r' = [] /\
+      H.shared_within 6 (H.h_muts ex_schema h' r' ex_muts) r' =
+        [([H.PField 4; H.PItem 0], [H.PField 4; H.PItem 2])]%nat
+  | None => False
+  end /\
+  match H.h_pickle_rt ex_schema 4 ex_heap ex_root with
+  | Some (h', r') =>
+      H.reach 4 h' r' = [11; 6; 8; 7; 10; 9]%nat /\
+      pv_same_opt (H.abs 6 (H.h_muts ex_schema h' r' ex_muts) r') (H.abs 6 h' r') = false /\
+      pv_same_opt (H.abs 6 (H.h_muts ex_schema h' r' ex_muts) ex_root) (Some (PMsg ex_hobj)) = true
+  | None => False
+  end.
+Proof. vm_compute. repeat split; reflexivity. Qed.
+
+(* ---- for the SHALLOW copy the independence statement is false: the copy holds the original's list, so appending to
+        the repeated field of the copy (or assigning inside its nested message) is visible in the original; the same
+        mutations through a deep copy are not ---- *)
+Theorem C14_copy_shares_refuted :
+  exists sc h root v h' root' m1 m2,
+    wf_schema sc = true /\ H.abs 4 h root = Some v /\ H.h_copy sc h root = Some (h', root') /\
+    pv_same_opt (H.abs 4 h' root') (Some (PMsg (copy sc ex_hobj))) = true /\
+    pv_same_opt (H.abs 4 (H.h_mut sc h' root' m1) root) (H.abs 4 h root) = false /\
+    pv_same_opt (H.abs 4 (H.h_mut sc h' root' m2) root) (H.abs 4 h root) = false /\
+    H.shared 4 h' root root' <> [] /\
+    match H.h_deepcopy sc 4 h root with
+    | Some (h2, r2) => pv_same_opt (H.abs 4 (H.h_mut sc h2 r2 m1) root) (H.abs 4 h root) = true /\ H.shared 4 h2 root r2 = []
+    | None => False
+    end.
+Proof.
+  exists ex_schema, ex_heap, ex_root, (PMsg ex_hobj), (fst (match H.h_copy ex_schema ex_heap ex_root with Some p => p | None => ([], O) end)),
+         6%nat, (H.MAppend [H.PField 4%nat] (PMsg (Obj 11 [PInt 3; PPlaceholder; PNone] true [] []))),
+         (H.MSet [H.PField 1%nat] 0%nat (PInt 5)).
+  vm_compute. repeat split; try reflexivity. discriminate.
+Qed.
+Print Assumptions C14_copy_shares_refuted.
+
+(* the hypothesis of C14_copy_toplevel_independent holds on the witness and the assignments do change the copy *)
+Example C14_copy_toplevel_nonvacuous :
+  match H.h_copy ex_schema ex_heap ex_root with
+  | Some (h', r') =>
+      let h2 := H.h_muts ex_schema h' r' (BP.Proofs.C14HeapD.toplevel_sets
+                  [(2%nat, PInt 1); (1%nat, PMsg (Obj 11 [PInt 6; PPlaceholder; PNone] true [] [])); (4%nat, PList [])]) in
+      pv_same_opt (H.abs 4 h2 r') (H.abs 4 h' r') = false /\ pv_same_opt (H.abs 4 h2 ex_root) (Some (PMsg ex_hobj)) = true
+  | None => False
+  end.
+Proof. vm_compute. split; reflexivity. Qed.
